@@ -97,7 +97,7 @@ PROPS = {
                 rule="Montgomery-limb boundary grid {0,1,2^63,2^64-1,q_i-1,q_i,q_i+1}^4 restricted to < r (1207 values): full cross product for add/sub/mul/cmp in thorough, all values plus 25k random pairs in quick; unary ops on grid, values within 2 of 0, r/2, r, R mod r, special and random values; div/exp pairs; BatchInvert with zeros at every position; every op through the assembly path, the assembly path with ADX disabled, the portable generic functions and all aliasing patterns."),
     "C16": dict(ties=['FrConsts', 'FrCodec', 'FrCodecEnc'], level="proof",
                 rule="byte strings of every length 0..64 for the three decoders; values 0,1,r-1,r,r+1,2r-1,2r,p,2^256-1 in 32/33/40/64-byte encodings; canonical and just-non-canonical 32-byte values; the caller's buffer is compared before/after and decoded twice."),
-    "C17": dict(ties=['Formulas', 'SqrtChain', 'SqrtFp', 'Elements', 'GoIpa.Lemmas.ZpField', 'GoIpa.Lemmas.Primes', 'GoIpa.Lemmas.SqrtPrecompProof'], level="proof",
+    "C17": dict(ties=['Formulas', 'SqrtChain', 'SqrtFp', 'SqrtTables', 'Elements', 'GoIpa.Lemmas.ZpField', 'GoIpa.Lemmas.Primes', 'GoIpa.Lemmas.SqrtPrecompProof'], level="proof",
                 rule="0,1,2,4,5,7,p-1,p-2,-5,d; every 2^k-th root of unity (k=0..32) and products with odd-order elements; every 8-bit value in each of the four discrete-log blocks with the other blocks zero/random/odd/even; random squares and non-squares in equal share; point recovery for random x with both sign requests."),
     "C18": dict(ties=['Loops', 'Consts', 'GoIpa.Lemmas.DivideOnDomain'], level="proof", modes=[{"name": "default"}, {"name": "cpu3", "prefix": taskset(3)}, {"name": "cpu7-procs5", "prefix": taskset(7), "env": {"GOMAXPROCS": "5"}}],
                 rule="both precomputed tables (512+510 entries); f in {random, unit vectors, constant, r-1, zero, X^255}; z in {256,257,r-1,2^200,random}: inner product with barycentric coefficients against direct Lagrange evaluation; DivideOnDomain for all 256 indices against the model and the defining relation q_i (i-k) = f_i - f_k."),
